@@ -41,6 +41,8 @@ M = [
  ("gamma_result_check_reverted", "src/gamma.rs", "if !(res.is_finite() && res > 0.0) {", "if res.is_nan() {", ["C12"], "reverts fix F3"),
  ("gamma_small_x_reverted", "src/gamma.rs", "if x_n < 1.0e-14 {", "if x_n < 0.0 {", ["C01", "C12"], "reverts fix F5"),
  ("gamma_schroder_guard", "src/gamma.rs", "let h_n = if t_n.abs() <= 0.1 && (w_n * t_n).abs() <= 0.1 {", "let h_n = if t_n.abs() <= 10.0 && (w_n * t_n).abs() <= 10.0 {", ["C12"], "Schroeder correction applied far outside its range"),
+ ("panic_three_loops", "src/sampling.rs", "    let num_loops = q_t_inverse.get_dim();\n    let prefactor", "    let num_loops = q_t_inverse.get_dim();\n    assert!(num_loops < 3 || q_vectors[2][0] < lambda.from_f64(2.0), \"scratch space exhausted\");\n    let prefactor", ["C08", "C10", "C13", "C14"], "sampling panics for >=3 loops when a Gaussian component exceeds 2"),
+ ("spurious_zerodet_dim3", "src/matrix.rs", "        if det_q == const_builder.zero() || determinant == const_builder.zero() {", "        if det_q == const_builder.zero() || determinant == const_builder.zero() || (self.dim == 3 && q[(2, 2)] < q[(0, 0)].ref_mul(&const_builder.from_f64(0.01))) {", ["C09", "C15", "C01"], "well-conditioned 3x3 matrices with a smaller last pivot are refused as ZeroDet"),
  ("from_isize_via_f32", "src/float.rs", "        value as f64\n", "        value as f32 as f64\n", ["C20"], "from_isize through f32"),
  ("vector_sub_reversed_high_dim", "src/vector.rs", "            elements: array::from_fn(|i| self[i].ref_sub(&rhs[i])),", "            elements: array::from_fn(|i| if i > 3 { rhs[i].ref_sub(&self[i]) } else { self[i].ref_sub(&rhs[i]) }),", ["C20"], "subtraction reversed for components beyond the fourth"),
  ("cached_factor_not_serialised", "src/preprocessing.rs", "    pub cached_factor: f64,\n}", "    #[serde(skip)]\n    pub cached_factor: f64,\n}", ["C18", "C04"], "cached_factor skipped by serde"),
@@ -81,6 +83,8 @@ def main():
     only = set(sys.argv[1:])
     setup()
     rows = []
+    if only and os.path.exists("/verif/mutants/kill_matrix.json"):
+        rows = [r for r in json.load(open("/verif/mutants/kill_matrix.json")).get("mutants", []) if r.get("mutant") not in only]
     try:
         # baseline: all targeted checks silent on the unmodified copy
         rc, out = sh("cargo build --release --offline", cwd=HAR)
